@@ -114,7 +114,7 @@ PROPS = {
     },
     "C11": {
         "test": "TestC11",
-        "lean_modules": ["Gittuf.Props.C11"],
+        "lean_modules": ["Gittuf.Props.C11", "Gittuf.Props.C11b"],
         "n": {"quick": 16, "thorough": 400},
         "min_per_shard": 4,
         "rule": "histories as for C01 under policies that combine delegation rules with 0-2 global rules (threshold 1..3 over the verified "
